@@ -411,7 +411,7 @@ impl Obs {
             }
             for k in KINDS {
                 let (x, y) = (a.ic[k.idx()], b.ic[k.idx()]);
-                let ok = if exact_ic { x.to_bits() == y.to_bits() || (x == 0.0 && y == 0.0) } else { close32(x, y) };
+                let ok = if exact_ic { x.to_bits() == y.to_bits() || (x == 0.0 && y == 0.0) } else { close_ic(x, y, exp.recs[k.idx()].len()) };
                 if in_scope(scope::IC) && !ok {
                     return d(&format!("InformationContent::{}", kind_fn(k)), "information content is not -ln(n/N)", format!("term {id}: observed {x} expected {y}"));
                 }
@@ -453,6 +453,30 @@ impl Obs {
     pub fn fingerprint(&self) -> u64 {
         crate::ctx::fnv_str(&format!("{self:?}"))
     }
+}
+
+/// The distance from |v| to the next larger f32.
+pub fn ulp32(v: f32) -> f32 {
+    let a = v.abs();
+    if !a.is_finite() {
+        return f32::NAN;
+    }
+    f32::from_bits(a.to_bits() + 1) - a
+}
+
+/// Information content against -ln(n/N) for a kind with N records. Any f32 or f64 evaluation of the formula
+/// (ln of the rounded ratio, ln N - ln n, log1p of the complement) lies within two ulp of ln N plus four ulp of the
+/// value; an expected 0 (n = N, n = 0 or N = 0) is 0 in every evaluation and is demanded exactly. Unlike a constant
+/// absolute band this does not let a small information content (n close to N) be off by a visible fraction.
+pub fn close_ic(x: f32, y: f32, n_total: usize) -> bool {
+    if !x.is_finite() || !y.is_finite() {
+        return false;
+    }
+    if y == 0.0 {
+        return x == 0.0;
+    }
+    let ln_n = (n_total.max(2) as f32).ln();
+    (x - y).abs() <= 2.0 * ulp32(ln_n) + 4.0 * ulp32(y)
 }
 
 pub fn close32(x: f32, y: f32) -> bool {
